@@ -39,6 +39,9 @@ pub enum GlideCall {
     SetTime(f32),
     Process(f32),
     ProcessN(f32, u16),
+    /// set_time(k / fs evaluated in f32, moved by `ulps` f32 steps): times of exactly k samples (k = 2 is the boundary
+    /// of the fastest setting)
+    SetTimeSamples { k: u8, ulps: i8 },
 }
 
 #[derive(Debug, Clone, Serialize, Deserialize, PartialEq)]
@@ -186,6 +189,12 @@ pub fn run_case(case: &ApiCase, stats: &mut Stats) -> Result<CaseInfo, Failure> 
                     GlideCall::SetTime(t) => {
                         ext += extreme(*t) as u32;
                         guard("glide", i, what, || g.set_time(*t))?
+                    }
+                    GlideCall::SetTimeSamples { k, ulps } => {
+                        let t0 = *k as f32 / *fs;
+                        let t = f32::from_bits((t0.to_bits() as i64 + (*ulps).clamp(-3, 3) as i64).max(0) as u32);
+                        ext += 1;
+                        guard("glide", i, format!("set_time({:e}) = {} samples {:+} ulps", t, k, ulps), || g.set_time(t))?
                     }
                     GlideCall::Process(x) => {
                         guard("glide", i, what, || g.process(*x))?;
